@@ -10,3 +10,4 @@ ASSUMPTIONS = []
 from vt.contracts import tables_ground  # noqa: F401,E402
 from vt.contracts import dfun_sym  # noqa: F401,E402
 from vt.contracts import su2  # noqa: F401,E402
+from vt.contracts import dgroup  # noqa: F401,E402
